@@ -49,6 +49,11 @@ def gen_source(rng):
             w = S.pick_weights(rng)
             w.pop("zero", None)
             lines.append(S.free_string(rng, rng.choice([0, 5, 20, 60]), w, space=0.2, tab=0.03))
+    if rng.random() < 0.15 and lines:
+        # leading whitespace that is not U+0020 (ideographic space, no-break space, en quad): still characters
+        # of the code, whatever indentation guides do
+        i = rng.randrange(len(lines))
+        lines[i] = rng.choice(["\u3000", "\xa0", "\u2000", " \u3000 ", "\xa0\xa0"]) + lines[i].lstrip()
     lead = rng.choice([0, 0, 0, 1, 2, 4])
     trail = rng.choice([0, 0, 1, 3])
     lines = [""] * lead + lines + [""] * trail
